@@ -688,7 +688,8 @@ impl<T: Display> Display for Arr2D<T> {
         let mut col_widths = vec![0; self.width];
         for c in 0..self.width {
             col_widths[c] = (0..self.height)
-                .map(|r| format!("{}", self[(r, c)]).len())
+                // `{:>width$}` pads to a number of characters, not bytes
+                .map(|r| format!("{}", self[(r, c)]).chars().count())
                 .max()
                 .unwrap_or(0);
         }
